@@ -183,3 +183,69 @@ Example C13_dedup_example :
   dedup_keep [2; 3; 4; 5] [Yes; No; Yes; No] = [3; 5].
 Proof. reflexivity. Qed.
 Print Assumptions C13_dedup_by.
+
+(* ---- tie to the source text: the index checks, memmove arguments and new lengths of Vec::insert /
+   remove / split_off and the range resolution and checks of Vec::drain are extracted from vec.rs on
+   every run (tools/rs2v.py -> LeafActual.v) and equal what VecModel.insert / remove / split_off /
+   drain_range compute ---- *)
+From BV Require Import RustSem LeafActual LeafActualOk.
+From Coq Require Import String.
+Open Scope string_scope.
+Open Scope N_scope.
+
+Theorem C13_source_insert : forall len cap base i x, i <= len -> base + i + 1 < W -> len + 1 < W ->
+  let en := vself len cap base in
+  let args := [VN i; x] in
+  call_fn src_fns en "vec_insert_index_ok" args = RustSem.Ret (VB (i <=? len)) /\
+  call_fn src_fns en "vec_insert_must_grow" args = RustSem.Ret (VB (len =? cap)) /\
+  call_fn src_fns en "vec_insert_copy_src" args = RustSem.Ret (VN (base + i)) /\
+  call_fn src_fns en "vec_insert_copy_dst" args = RustSem.Ret (VN (base + i + 1)) /\
+  call_fn src_fns en "vec_insert_copy_len" args = RustSem.Ret (VN (len - i)) /\
+  call_fn src_fns en "vec_insert_new_len" args = RustSem.Ret (VN (len + 1)).
+Proof. exact src_vec_insert_ok. Qed.
+
+Theorem C13_source_index_checks : forall len cap base i x,
+  call_fn src_fns (vself len cap base) "vec_insert_index_ok" [VN i; x] = RustSem.Ret (VB (negb (len <? i))) /\
+  call_fn src_fns (vself len cap base) "vec_remove_index_ok" [VN i] = RustSem.Ret (VB (i <? len)).
+Proof. intros. split; [apply src_vec_insert_check | apply src_vec_remove_check]. Qed.
+
+Theorem C13_source_remove : forall len cap base i, i < len -> base + i + 1 < W ->
+  let en := vself len cap base in
+  let args := [VN i] in
+  call_fn src_fns en "vec_remove_index_ok" args = RustSem.Ret (VB (i <? len)) /\
+  call_fn src_fns en "vec_remove_copy_src" args = RustSem.Ret (VN (base + i + 1)) /\
+  call_fn src_fns en "vec_remove_copy_dst" args = RustSem.Ret (VN (base + i)) /\
+  call_fn src_fns en "vec_remove_copy_len" args = RustSem.Ret (VN (len - i - 1)) /\
+  call_fn src_fns en "vec_remove_new_len" args = RustSem.Ret (VN (len - 1)).
+Proof. exact src_vec_remove_ok. Qed.
+
+Theorem C13_source_split_off : forall len cap base at_, at_ <= len -> base + at_ < W ->
+  let en := vself len cap base in
+  call_fn src_fns en "vec_split_off_index_ok" [VN at_] = RustSem.Ret (VB (negb (len <? at_))) /\
+  call_fn src_fns en "vec_split_off_other_len" [VN at_] = RustSem.Ret (VN (len - at_)) /\
+  call_fn src_fns en "vec_split_off_copy_src" [VN at_] = RustSem.Ret (VN (base + at_)).
+Proof. exact src_vec_split_off_ok. Qed.
+
+(* drain (Vec and String): a bound of usize::MAX that would need +1 panics instead of wrapping (F10) *)
+Theorem C13_source_drain_bounds : forall len cap base s e,
+  let en := vself len cap base in
+  call_fn src_fns en "vec_drain_start" [vrange s e] = opt_or_panic (range_start s) /\
+  call_fn src_fns en "vec_drain_end" [vrange s e] = opt_or_panic (range_end e len) /\
+  call_fn src_fns en "string_drain_start" [vrange s e] = opt_or_panic (range_start s) /\
+  call_fn src_fns en "string_drain_end" [vrange s e] = opt_or_panic (range_end e len).
+Proof. exact src_drain_bounds_ok. Qed.
+
+Theorem C13_source_drain_checks : forall len cap base s e a b,
+  range_start s = Some a -> range_end e len = Some b ->
+  let en := vself len cap base in
+  call_fn src_fns en "vec_drain_ordered" [vrange s e] = RustSem.Ret (VB (a <=? b)) /\
+  call_fn src_fns en "vec_drain_in_range" [vrange s e] = RustSem.Ret (VB (b <=? len)) /\
+  (b <= len -> call_fn src_fns en "vec_drain_tail_len" [vrange s e] = RustSem.Ret (VN (len - b))).
+Proof. exact src_vec_drain_checks_ok. Qed.
+
+Print Assumptions C13_source_insert.
+Print Assumptions C13_source_index_checks.
+Print Assumptions C13_source_remove.
+Print Assumptions C13_source_split_off.
+Print Assumptions C13_source_drain_bounds.
+Print Assumptions C13_source_drain_checks.
